@@ -53,4 +53,35 @@ def wsCoefBatch (eps : α) (ts : List (α × α)) : List (α × α × α) :=
   let AB := maskSelect sl (maskSelect tl c4 c3) (maskSelect tl c2 c1)
   List.zipWith (fun ab c => (ab.1, ab.2, c)) AB C
 
+
+/-! ## Objects, copies, failing calls (model of caller-held algebra LieTensors)
+
+A store of named objects, each holding a batch.  `setitem` is an in-place item assignment, `deepcopy` gives the
+destination its own data, `failing` is a call that raises (e.g. `Exp` of a tensor of the wrong width), `read` is
+`Exp()` / `matrix()` in any grad mode.  Only the first two change the store. -/
+
+inductive ObjOp (β : Type) where
+  | setitem (n i : Nat) (y : β)
+  | deepcopy (dst src : Nat)
+  | failing (n : Nat)
+  | read (n : Nat)
+
+abbrev Store (β : Type) := Nat → List β
+
+def ObjOp.step {β : Type} (s : Store β) : ObjOp β → Store β
+  | .setitem n i y => fun m => if m = n then (s n).set i y else s m
+  | .deepcopy dst src => fun m => if m = dst then s src else s m
+  | .failing _ => s
+  | .read _ => s
+
+def ObjOp.changes {β : Type} : ObjOp β → Bool
+  | .setitem .. => true
+  | .deepcopy .. => true
+  | _ => false
+
+def runOps {β : Type} (s : Store β) (ops : List (ObjOp β)) : Store β := ops.foldl ObjOp.step s
+
+/-- what `Exp` (item-level function `f`) returns for object `n` in store `s` -/
+def readObj {β γ : Type} (f : β → γ) (s : Store β) (n : Nat) : List γ := (s n).map f
+
 end PP
